@@ -101,6 +101,24 @@ pub fn structural(rng: &mut Rng, o: &Opts) -> Prog {
             _ => Const::Str(random_string(rng, o)),
         });
     }
+    // values that look like parts of the encoding: an integer equal to its own index, integers whose
+    // bytes are tags, counts or line breaks, strings made of tag bytes or of something that reads
+    // like a length prefix
+    if rng.coin() {
+        for _ in 0..(1 + rng.below(4)) {
+            let c = match rng.below(8) {
+                0 => Const::Int(consts.len() as i32),
+                1 => Const::Int(consts.len() as i32 + 1),
+                2 => Const::Int([0x0302_0100, 0x0606_0606, 0x0000_0003, 0x0300_0000, 0x0a0d_0a0d, 0x00ff_00ff, 0x0001_0000, 0x0000_ffff][rng.below(8)]),
+                3 => Const::Int(-([1, 2, 3, 4, 5, 6, 256, 65536][rng.below(8)])),
+                4 => Const::Str("\u{0}\u{1}\u{2}\u{3}\u{4}\u{5}\u{6}".into()),
+                5 => Const::Str("\u{3}\u{0}\u{0}\u{0}abc".into()),
+                6 => Const::Str(format!("#{}", consts.len())),
+                _ => Const::Str(format!("{}", consts.len())),
+            };
+            consts.push(c);
+        }
+    }
     // make sure there is at least one of each leaf kind
     consts.push(Const::Str(random_string(rng, o)));
     consts.push(Const::Int(rng.i32_interesting()));
